@@ -128,6 +128,8 @@ def run_roll(case):
     op, W, minp = case["op"], case["W"], case["minp"]
     tr = base_trace(case, emb)
     tr.update(W=W, minp=minp)
+    if case.get("long"):
+        tr["long"] = 1
     keyobj, kenc = _keys_obj(case)
     values = _values_obj(case, emb)
     mask = _mask_obj(case)
